@@ -988,7 +988,24 @@ func c7Ctor(c *Ctx, fi *FuncInfo, sliceF *types.Var) {
 				}
 				// sorted-on-entry
 				if sortCall == nil {
-					okS, whyS = false, "the copy is not sorted"
+					// fewer than two elements are in order under any less function
+					short := false
+					lenV := ToPoly(&Term{Op: "builtin", Sym: "len", Args: []*Term{values}})
+					for _, cd := range p.Conds {
+						if pl, kind, isInt := cd.Rel().IntNorm(); isInt && kind == ">" {
+							// c - len(values) > 0 with c <= 2
+							for _, k := range []int64{2, 1} {
+								if pl.Equal(polyConst(k).Add(lenV, -1)) {
+									short = true
+								}
+							}
+						} else if isInt && kind == "=" && pl.Equal(canonSign(lenV)) {
+							short = true
+						}
+					}
+					if !short || !copied && sv.Op == "mkslice" {
+						okS, whyS = false, "the copy is not sorted"
+					}
 					continue
 				}
 				switch sortCall.Name {
